@@ -46,6 +46,7 @@ func enumerate(e *common.Enum) {
 	}
 	if only == "" || only == "B" {
 		defer enumerateB(e)
+		defer enumerateC(e)
 	}
 	if only == "B" {
 		return
@@ -191,6 +192,42 @@ func enumerateB(e *common.Enum) {
 				}
 				key := fmt.Sprintf("B2:d%d:%d+%d", di, i1, i2)
 				e.Do(key, func(c *common.Ctx) { runB(c, d, e1, e2) })
+			}
+		}
+	}
+}
+
+// enumerateC: position sweep.  One request of every position-taking kind at every (line, character) from -1 to two
+// past the last line / two past the longest line counted in BYTES (so that every value between the rune count, the
+// UTF-16 length and the byte length of a non-ASCII line is met), on every document of the alphabet and of space B.
+func enumerateC(e *common.Enum) {
+	docs := append([]string{docA, docU, docK, docF}, docsB...)
+	kinds := []struct{ name, method, extra string }{
+		{"hover", "textDocument/hover", ""},
+		{"completion", "textDocument/completion", `,"context":{"triggerKind":1}`},
+		{"signatureHelp", "textDocument/signatureHelp", ""},
+		{"definition", "textDocument/definition", ""},
+	}
+	for di, d := range docs {
+		lines := strings.Split(d, "\n")
+		maxb := 0
+		for _, l := range lines {
+			if len(l) > maxb {
+				maxb = len(l)
+			}
+		}
+		for _, k := range kinds {
+			for l := -1; l <= len(lines)+1; l++ {
+				for ch := -1; ch <= maxb+2; ch++ {
+					d, k, p := d, k, pos{l, ch}
+					key := fmt.Sprintf("C:d%d:%s:%d,%d", di, k.name, l, ch)
+					e.Do(key, func(c *common.Ctx) {
+						m := newModel()
+						steps := []step{openStep(m, "open", d, 0), posRequest(k.name+"-sweep", k.method, numID, p, k.extra).gen(m, 1),
+							posRequest("hover-after", "textDocument/hover", numID, pos{0, 0}, "").gen(m, 2)}
+						evaluate(c, "C", fmt.Sprintf("C: open %q ; %s at %d:%d ; hover at 0:0", d, k.name, l, ch), m, steps)
+					})
+				}
 			}
 		}
 	}
